@@ -9,13 +9,13 @@ From RC Require Import Hdr Machine RunInd Flags Flags2.
 Import ListNotations RecordSetNotations.
 
 Definition monoA (l0 : list event) : lpred :=
-  LPred (fun _ => True) (suffix l0) (fun e l _ H => suffix_cons_r l0 l e H) (fun _ _ => I).
+  LPred (fun _ => True) (fun _ => suffix l0) (fun e _ l _ H => suffix_cons_r l0 l e H) (fun _ _ => I).
 
 Definition MPre (c : call) (m : machine) : Prop := True.
 Definition MPost (c : call) (m m' : machine) (r : outcome) : Prop := suffix (log m) (log m').
 
 (** the log predicate holds of the machine of a result *)
-Definition lres (A : lpred) (x : machine * outcome) : Prop := lp_log A (log x.1).
+Definition lres (A : lpred) (x : machine * outcome) : Prop := lp_log A (st_exec x.1) (log x.1).
 
 Lemma lres_intro A t m r : inv A t m -> lres A (m, r).
 Proof. intros [_ H]. exact H. Qed.
@@ -57,6 +57,9 @@ Section Mono.
     unfold lres. cbn in *. etransitivity; eassumption.
   Qed.
 
+  Lemma inv_set_exec_mono t g m : inv A t m -> inv A t (m <| st_exec ::= g |>).
+  Proof. intros [H1 H2]. split; [exact H1 | exact H2]. Qed.
+  Local Hint Extern 1 (inv _ _ (set st_exec _ _)) => (apply inv_set_exec_mono) : fl.
   Local Hint Extern 2 (lres _ (rec _ _)) => (eapply mrec) : fl.
   (** every event is acceptable for this predicate *)
   Local Hint Extern 1 (inv _ _ (emit _ _)) => (apply (inv_emit A); [exact I|]) : fl.
